@@ -144,6 +144,9 @@ def helpers(np):
         return bool(np.shares_memory(v, base) and off == lo * base.strides[0] and
                     v.strides[0] == base.strides[0])
 
+    def shares_memory(a, b):
+        return isinstance(a, np.ndarray) and isinstance(b, np.ndarray) and bool(np.shares_memory(a, b))
+
     def same_fp(a, b):
         a, b = float(a), float(b)
         return a == b or (a != a and b != b)
@@ -177,7 +180,7 @@ def helpers(np):
         return hasattr(x, '_data') and hasattr(x, 'asarray')
     import math as _math
     return dict(is_integral=lambda v: bool(np.isfinite(v)) and float(v) == int(v), log_=np.log, exp_=np.exp, tanh_=np.tanh, le=le, floor_=_math.floor, approx_h=None, exceeds=exceeds, below=below, INF_BOUND=1.0e30, same_fp=same_fp, same_fp_bool=same_fp_bool, approx=approx, is_scalar=is_scalar, is_vector=is_vector, is_view=is_view, iff=iff, is_none=is_none, same_object=same_object, is_nan=is_nan, is_inf=is_inf,
-                fp_finite=fp_finite, Sum=Sum, arr_eq=arr_eq, np=np)
+                fp_finite=fp_finite, Sum=Sum, arr_eq=arr_eq, np=np, shares_memory=shares_memory)
 
 
 def load_function(target, override=None):
